@@ -12,7 +12,7 @@ out = '/tmp/seedout_%s%s' % (pid, suf)
 if not os.path.exists(wt):
     subprocess.check_call(['git', '-C', '/repo', 'worktree', 'add', '-q', '--detach', wt, 'HEAD'])
 os.makedirs(out, exist_ok=True)
-t = open('/verif/tools/benign_prompt.txt' if suf.startswith('n') else '/verif/tools/seed_prompt_c.txt' if suf.startswith('c') else '/verif/tools/seed_prompt_d.txt' if suf.startswith('d') else '/verif/tools/seed_prompt.txt').read()
+t = open('/verif/tools/benign_prompt.txt' if suf.startswith('n') else '/verif/tools/seed_prompt_c.txt' if suf.startswith('c') or suf.startswith('e') else '/verif/tools/seed_prompt_d.txt' if suf.startswith('d') else '/verif/tools/seed_prompt.txt').read()
 t = t.replace('__WT__', wt).replace('__OUT__', out).replace('__PID__', pid).replace('__TITLE__', p['title'])
 t = t.replace('__STATEMENT__', p['statement']).replace('__QUANT__', p['quantifier']['text'])
 open('/tmp/seedprompt_%s%s.txt' % (pid, suf), 'w').write(t)
